@@ -9,7 +9,9 @@ import (
 // zzFamily builds member j of an input family (content bytes arbitrary where it matters):
 // 0 one ASCII item of j characters, 1 one binary item of j bytes, 2 a list of j empty lists,
 // 3 j nested single-element lists around an empty list, 4 a U2 item of j values,
-// 5 a list of j one-character ASCII items.
+// 5 a list of j one-character ASCII items, 6 j nested lists each of which declares as many
+// elements as there are bytes left behind its header (the most the decoder can be made to
+// believe), closed by an empty list: 3-byte length fields natively, 1-byte under the engine.
 func zzFamily(fam, j int, sym bool) []byte {
 	fill := func(n int, lim byte) []byte {
 		if sym && n <= 8 {
@@ -48,13 +50,31 @@ func zzFamily(fam, j int, sym bool) []byte {
 		for i := 0; i < j; i++ {
 			item = append(item, 0x41, 0x01, 'x')
 		}
+	case 6:
+		hdr := 2
+		if !sym && j > 100 {
+			hdr = 4
+		}
+		total := hdr*j + 2
+		for i := 0; i < j; i++ {
+			rem := total - hdr*(i+1)
+			if hdr == 2 {
+				if rem > 255 {
+					rem = 255
+				}
+				item = append(item, 0x01, byte(rem))
+			} else {
+				item = append(item, 0x03, byte(rem>>16), byte(rem>>8), byte(rem))
+			}
+		}
+		item = append(item, 0x01, 0x00)
 	}
 	return zzFrame(1, 1, 0, 1, []byte{0, 0, 0, 1}, item)
 }
 
 // ZZ_C07_growth: candidate finder for super-linear memory growth, which short inputs cannot
 // show directly.  The engine sums the bytes of all variable-size allocation requests while
-// decoding members j and 2j of a family; if doubling the input more than triples the sum,
+// decoding members j and 2j of a family; if doubling the input grows the sum by more than a factor 2.5,
 // that is a candidate, decided natively: member `scale` of the family is decoded for real
 // and runtime TotalAlloc is compared with the fixed bound 16 KiB*len+1 MiB.
 func ZZ_C07_growth() {
@@ -64,7 +84,7 @@ func ZZ_C07_growth() {
 		rt.AllocBegin(0, 16384*len(in)+1<<20, "alloc:linear-at-scale")
 		_, ok := Parse(in)
 		rt.AllocEnd()
-		rt.Assert(ok, "growth:family-member-decodes")
+		rt.Assert(ok || fam == 6, "growth:family-member-decodes")
 		rt.Reach("end")
 		return
 	}
@@ -75,10 +95,10 @@ func ZZ_C07_growth() {
 		_, ok := Parse(in)
 		tot[k] = rt.AllocTotal()
 		rt.AllocEnd()
-		rt.Assert(ok, "growth:family-member-decodes")
+		rt.Assert(ok || fam == 6, "growth:family-member-decodes")
 	}
 	rt.Observe("requested-bytes-j", tot[0])
 	rt.Observe("requested-bytes-2j", tot[1])
-	rt.Assert(tot[1] <= 3*tot[0]+4096, "alloc:growth-ratio")
+	rt.Assert(2*tot[1] <= 5*tot[0]+512, "alloc:growth-ratio")
 	rt.Reach("end")
 }
